@@ -288,9 +288,12 @@ class _BasicLinalg:
 class ShimNP:
     """module-like stand-in for numpy"""
 
-    def __init__(self):
+    def __init__(self, join_nonfinite_default=False):
         self.calls = {}
         self.linalg = _BasicLinalg()
+        # np.divide(..., out=<nan>, where=<symbolic>): fork per element (default) or join into one If-term with the tagged
+        # non-finite symbol (for relational claims that compare whole terms and do not care about the finiteness guards)
+        self.join_nonfinite_default = join_nonfinite_default
 
     def _count(self, k):
         self.calls[k] = self.calls.get(k, 0) + 1
@@ -470,7 +473,7 @@ class ShimNP:
             wi = w[idx]
             if isinstance(wi, SB):
                 cur = res[idx]
-                if isinstance(cur, (float, _np.floating)) and (cur != cur or _isinf(cur)):
+                if isinstance(cur, (float, _np.floating)) and (cur != cur or _isinf(cur)) and not self.join_nonfinite_default:
                     # the default is non-finite: cannot be joined into a real-valued If-term, fork instead
                     if bool(wi):
                         res[idx] = a[idx] / b[idx]
@@ -746,10 +749,10 @@ def sfloat(x):
     return float(x)
 
 
-def patches_for(*modules):
+def patches_for(*modules, join_nonfinite_default=False):
     """Standard shim bindings for the given imported atomica modules (whatever of np/math/sc/scipy/exp they bind)"""
     out = []
-    snp = ShimNP()
+    snp = ShimNP(join_nonfinite_default=join_nonfinite_default)
     for m in modules:
         d = m.__dict__
         if "np" in d:
